@@ -208,8 +208,10 @@ def _gen_map(rnd, n, style=None):
 def _compile_map(ctx, src, d, name):
     sp = os.path.join(d, name + ".tzmap")
     with open(sp, "w", encoding="utf-8") as fh:
-        for k, z in src:
-            fh.write("%s\t%s\n" % (k, z))
+        # sources with an odd number of lines end without a newline (a function of the source, so
+        # that a replay writes the same bytes)
+        text = "".join("%s\t%s\n" % (k, z) for k, z in src)
+        fh.write(text[:-1] if len(src) % 2 else text)
     out = os.path.join(d, name + ".tzmcc")
     env = tools.base_env(ctx.build, "san")
     r = tools.run([ctx.build.tool("tzmap", "san"), "cc", "-o", out, sp], env=env, timeout=30)
